@@ -151,6 +151,13 @@ pub fn exact_norm_triple_shape(p: Params, ntt: &Ntt, rng: &mut Prng, target: i64
         } else if shape == 2 {
             s2 = vec![0i64; n];
             s2[rng.usize_below(n)] = if rng.chance(1, 2) { 1 } else { -1 };
+        } else if shape == 4 {
+            // one s2 coefficient beyond the centred range of Z_q (6145..=12159, which Algorithm 18
+            // still decodes), everything else tiny: the integer norm counts it in full
+            s2 = (0..n).map(|_| gaussish(rng, 3.0)).collect();
+            // the big coefficient is derived from the target so that a small rest remains for s1
+            let m = (((budget - 30_000).max(0) as f64).sqrt() as i64).clamp(6145, 12159);
+            s2[rng.usize_below(n)] = if rng.chance(1, 2) { m } else { -m };
         } else if shape == 3 {
             // like shape 0, with one coefficient in the upper half of what the reference
             // implementation still emits and accepts (1024..=2047)
@@ -618,4 +625,55 @@ pub fn grind_salt(rng: &mut Prng, msg: &[u8], n: usize, trials: usize) -> (Vec<u
         }
     }
     best
+}
+
+// ---------------------------------------------------------------------------
+// Z5: chosen s1. The public key is attacker-chosen: with s2 = +-x^j and
+// h = (c - s1)/s2 the verifier's s1 = c - s2*h is any vector in [-6144, 6144]^n
+// the attacker likes - all at the ends of the centred range, blocks of extremes,
+// alternating signs ... (the specification rejects these by norm; the verifier
+// must do so without unwinding).
+// ---------------------------------------------------------------------------
+
+pub fn chosen_s1_triple(rng: &mut Prng, p: Params) -> Triple {
+    let n = p.n;
+    let msg = crate::world::message(rng);
+    let salt = rng.bytes(40);
+    let mut sm = salt.clone();
+    sm.extend_from_slice(&msg);
+    let c = hash_to_point(&sm, n);
+    let pattern = rng.below(7);
+    let s1: Vec<i64> = (0..n)
+        .map(|i| match pattern {
+            0 => 6144,
+            1 => -6144,
+            2 => if i % 2 == 0 { 6144 } else { -6144 },
+            3 => if (i / 64) % 2 == 0 { 6144 } else { 0 },
+            4 => if rng.chance(1, 2) { 6144 } else { -6144 },
+            5 => 6144 - rng.below(3) as i64,
+            _ => rng.below(12289) as i64 - 6144,
+        })
+        .collect();
+    // s2 = +-x^j: invertible, s2^-1 = -+x^(n-j)
+    let j = rng.usize_below(n);
+    let sign: i64 = if rng.chance(1, 2) { 1 } else { -1 };
+    let mut s2 = vec![0i64; n];
+    s2[j] = sign;
+    // h = (c - s1) * s2^-1 ; multiplying by x^(n-j) * (-sign) in Z_q[x]/(x^n+1)
+    let num: Vec<i64> = (0..n).map(|i| modq(c[i] - s1[i])).collect();
+    let mut h = vec![0i64; n];
+    for i in 0..n {
+        // x^i * x^(n-j) = -x^(i-j) (i >= j) or x^(n+i-j)... handle by index arithmetic
+        let k = i + n - j;
+        let (idx, neg) = if k >= n { (k - n, true) } else { (k, false) };
+        let mut v = num[i] * (-sign);
+        if neg {
+            v = -v;
+        }
+        h[idx] = modq(h[idx] + v);
+    }
+    let sig = codec::sig_encode(p, &salt, &s2).expect("a monomial always fits");
+    let pk = codec::pk_encode(p, &h);
+    let norm: i64 = s1.iter().map(|x| x * x).sum::<i64>() + 1;
+    Triple { msg, sig, pk, norm, s1_max: 6144, note: format!("Z5 chosen s1, pattern {}, s2 = {}x^{}", pattern, sign, j) }
 }
